@@ -4,7 +4,7 @@
 //!
 //! **Domain.** SPSC (one `SpillPoolSink`) or MPSC with 1–3 writer handles (the original
 //! `SpillPoolWriter`, clones of it, or `new_sink()` sinks — created during set-up). Writer script:
-//! 0–4 pushes of batches with 0 (empty), 1, 20 or 100 rows, then drop. Batches carry a unique id in
+//! 0–6 ops: pushes of batches with 0 (empty), 1, 20 or 100 rows, or `WaitDelivered(1..=5)` (below), then drop. Batches carry a unique id in
 //! every row. `max_file_size_bytes` is derived from `rot_batches` ∈ 0..=4 so that a file rotates
 //! after about that many 20-row batches (4 → practically never). One reader actor polls the stream
 //! to end-of-stream, or drops it after `reader_max` batches. Real temp files (per-case tempdir).
@@ -41,28 +41,33 @@
 //! **Non-trivial**: the reader parked at least once and either (no quota) ≥ 2 spill files were
 //! created (≥ 1 rotation), or a push failed after at least one earlier push had succeeded.
 //!
-//! **Known finding (open until the orchestrator commits /verif/fixes/C16-push-failure-finalize.diff)**:
-//! `SpillPoolSink::push_batch` pops the write file from `open_write_files` and, when
-//! `append_batch`/`flush`/`finish` fails, returns without putting it back or marking it
-//! `writer_finished`; nobody can reach the file any more, so the reader waits on it forever
-//! (logical deadlock; with several writers batches in later files are never delivered either).
-//! Shrunk case: regressions/C16/c16/push-failure-reader-hangs.json (+ two richer ones next to it).
-//! While open, every case with a quota whose reader polls at all (`reader_max != Some(0)`) carries
-//! the signature `quota+polling-reader` and is excluded (counted in `known_excluded`): any failed
-//! push strands a file the reader will eventually wait on. Quota cases with an idle reader still run
-//! (error paths, disk accounting). With the fix applied and the entry removed the whole fault
-//! enumeration passes (mutrun, seeds 0–4, exit 0, 12 000 cases each incl. ~1 700 failed pushes, see
-//! probes/c16-fix-verify.log; that run predates the `IoGate` determinism hardening of the reader loop —
-//! the re-verification with the final harness hit the 60 s watchdog under machine load > 200 and was
-//! cancelled; to redo: `tools/mutrun fixes/C16-push-failure-finalize.diff -- ./check C16 quick` after
-//! setting the known-findings entry to `fixed`).
+//! **Finding (fixed in /repo; entry `fixed` in known_findings.json)**: `SpillPoolSink::push_batch` popped
+//! the write file from `open_write_files` and, when `append_batch`/`flush`/`finish` failed, returned
+//! without putting it back or marking it `writer_finished`; nobody could reach the file any more, so
+//! the reader waited on it forever (logical deadlock; with several writers batches in later files
+//! were never delivered either). Found after 10 cases, shrunk to
+//! regressions/C16/c16/push-failure-reader-hangs.json (+ two richer cases next to it); all three now
+//! run as plain regressions and the former `quota+polling-reader` exclusion is gone, so the whole
+//! fault enumeration runs.
+//!
+//! **`WaitDelivered(n)` (script codes 4..=8)** makes "the reader is always woken when data becomes
+//! available" observable while writers stay alive: the writer actor parks until the reader has
+//! delivered n batches in total (n clamped to the batches pushed successfully so far and to
+//! `reader_max`), then continues. Without it every history ends with all writers dropping, and the
+//! last drop wakes the pool unconditionally, masking a missing data wake-up. Only effective with one
+//! writer handle: there every pushed batch is immediately readable (one open file, last in the
+//! queue), so the wait always ends under a correct implementation; with several writers a batch in
+//! a later file legitimately waits for an earlier open file to be sealed. A lost data wake-up shows
+//! up as a logical deadlock (reader parked, writer waiting).
+//! Seeded defect /verif/seeded/C16-a (pool-level wake moved to the put-back branch, so a push that
+//! creates *and* seals a file never wakes a reader parked on the empty pool): SEEDED-RESULT
 //!
 //! **Deviations from DESIGN.md**: quota sized from a dry run rather than analytically; the failing
 //! `TempFileFactory` injector (§3.8c) is not used (the quota reaches the same error paths);
 //! the schedule type (see `vf_kit::sched`); reader-drop-early is part of the domain.
 //!
 //! **Sensitivity probes** (patches in `vf-chan/probes/`, `tools/mutrun <patch> -- ./check C16 quick`,
-//! run while the known finding is open, i.e. on the no-fault sub-domain; logs `probes/probes*.log`):
+//! run while the push-failure finding was still open, i.e. on the no-fault sub-domain; logs `probes/probes*.log`):
 //! * `c16-p1-drop-no-pool-wake` — last writer's drop does not wake the pool-level waker:
 //!   **VIOLATION** after 19 cases (deadlock: reader waits for a new file forever).
 //! * `c16-p2-file-eof-when-caught-up` — `SpillPoolFile::poll_next` reports end-of-file as soon as the
@@ -727,7 +732,7 @@ impl Property for C16 {
             .boxed()
     }
     fn budget(&self, tier: Tier) -> Budget {
-        Budget::new(tier.pick(5_000, 300_000), tier.pick(8, 16)).min_nontrivial(tier.pick(200, 10_000)).case_timeout(300).shrink(3000, 120)
+        Budget::new(tier.pick(12_000, 300_000), tier.pick(8, 16)).min_nontrivial(tier.pick(500, 10_000)).case_timeout(300).shrink(3000, 120)
     }
     fn rule(&self) -> String {
         "generated (spsc|mpsc with 1-3 writer handles, push scripts with 0/1/20/100-row batches, rotation threshold, reader drains or leaves early, \
